@@ -9,6 +9,8 @@
 (*   Switch.UpdateForwardingPolicies  how a newly advertised policy        *)
 (*                                 reaches the links that enforce it       *)
 (*   Switch.AddLink / RemoveLink   which links exist (live, pending, none) *)
+(*   Switch.htlcForwarder, block-epoch case   which height the decision    *)
+(*                                 is taken at                             *)
 (*                                                                         *)
 (* The per-link check (channelLink.CheckHtlcForward) is NOT re-modelled:   *)
 (* it is the judgement of ForwardPolicyRules (Violated / Accept / Agree)   *)
@@ -30,6 +32,13 @@
 (*   elig[c]  EligibleToForward of the live link (reestablished and not    *)
 (*            flushing its outgoing side)                                  *)
 (*   bw[c]    spendable bandwidth of the channel (link.Bandwidth())        *)
+(*   height   the CURRENT height of the chain = the height of the block    *)
+(*            epoch the switch received last (Switch.bestHeight).  The     *)
+(*            chain notifier delivers the tip of the best chain: after a   *)
+(*            reorganisation onto a branch that is momentarily shorter the *)
+(*            epochs carry LOWER heights than before (106, then 103',      *)
+(*            104', ...).  "Current height" in the property is this value, *)
+(*            never the maximum of the heights seen.                       *)
 (*   last,out the last forwarding request (HTLC, requested next hop,       *)
 (*            bandwidths seen) and its outcome                             *)
 (*                                                                         *)
@@ -41,6 +50,9 @@
 (*   Add(c), Remove(c)     AddLink / RemoveLink (indexMtx write sections)  *)
 (*   Flush(c), Unflush(c)  the link stops / resumes being eligible         *)
 (*            (DisableAdds/EnableAdds(Outgoing): shutdown, quiescence)     *)
+(*   Epoch(n)  the forwarder takes a block epoch of height n off its epoch *)
+(*            stream: ANY height of the palette, in any order - higher,    *)
+(*            equal (re-delivered tip) or lower (reorg) than the last one  *)
 (*   Forward(h, r)  handlePacketAdd for HTLC h whose onion names next hop  *)
 (*            r = a channel (short channel id) or a node (blinded route):  *)
 (*            candidates = live links to r's peer (non-strict forwarding), *)
@@ -65,6 +77,11 @@
 (*                                  violates on the REQUESTED channel      *)
 (*   UnknownNextPeerOnlyIf          unknown_next_peer only for the cases   *)
 (*                                  named above                            *)
+(* Every clause judges the expiry rules ("neither too close to nor too far *)
+(* beyond the current height") against `height` as it was when the forward *)
+(* was decided (last.height): the height of the last epoch, also when that *)
+(* is lower than an earlier one.  SwitchPolicyTrace adds HeightIsCurrent:  *)
+(* the real switch's BestHeight() is the model's height after every step.  *)
 (* The model is checked by TLC (SwitchPolicyMC), drives the real Switch    *)
 (* with real channelLinks (SwitchPolicyGen -> harness/htlcswitch/          *)
 (* c09_switch_test.go) and validates what the real code did                *)
@@ -78,13 +95,14 @@ CONSTANTS
   Carol,      \* channels to peer "carol" (parallel channels); the others go to peer "alice"
   SmallBw,    \* channels funded with little spendable bandwidth
   PolNames,   \* names of the policies that may be advertised (palette below)
-  HtlcNames   \* names of the HTLC shapes that may arrive (palette below)
+  HtlcNames,  \* names of the HTLC shapes that may arrive (palette below)
+  Heights     \* the heights a block epoch may carry (any order: also decreasing = reorg)
 
-VARIABLES adv, reg, enf, elig, bw, last, out
-vars == <<adv, reg, enf, elig, bw, last, out>>
+VARIABLES adv, reg, enf, elig, bw, height, last, out
+vars == <<adv, reg, enf, elig, bw, height, last, out>>
 
 (* ----- environment constants of the fixture ------------------------------ *)
-Height  == 100       \* the switch's best height
+Height0 == 100       \* the height the switch starts at (Switch.New(cfg, currentHeight))
 RDelta  == 3         \* OutgoingCltvRejectDelta of every link
 MaxCltv == 2016      \* MaxOutgoingCltvExpiry of every link
 PeerOf(c) == IF c \in Carol THEN "carol" ELSE "alice"
@@ -116,11 +134,16 @@ HtlcOf(nm) ==
     [] nm = "H9"  -> Htlc(1520, 1500, 150, 140, 0, 0)      \* exactly PD's min; above PE's max
     [] nm = "H10" -> Htlc(1220, 1200, 150, 140, 0, 0)      \* exactly PE's max; below PD's min
     [] nm = "H11" -> Htlc(1021, 1000, 150, 140, 0, 1000)   \* inbound rate: exactly PB's fee + 1
+    \* expiries on the thresholds of OTHER heights (too soon at 104 only; too far at 98 and 100, fine from 101 on ...)
+    [] nm = "H12" -> Htlc(1020, 1000, 150, 107, 0, 0)      \* outgoing expiry = 104 + reject delta
+    [] nm = "H13" -> Htlc(1020, 1000, 2130, 2120, 0, 0)    \* outgoing expiry = 104 + max
+    [] nm = "H14" -> Htlc(1020, 1000, 150, 102, 0, 0)      \* outgoing expiry = 98 + reject delta + 1
+    [] nm = "H15" -> Htlc(1020, 1000, 2125, 2115, 0, 0)    \* outgoing expiry = 98 + max + 1
 Htlcs == {HtlcOf(nm) : nm \in HtlcNames}
 
-\* the case the per-link judgement is about: HTLC h over a channel with policy p and bandwidth b
-CaseOf(h, p, b) ==
-  [in |-> h.in, out |-> h.out, inExp |-> h.inExp, outExp |-> h.outExp, height |-> Height,
+\* the case the per-link judgement is about: HTLC h over a channel with policy p and bandwidth b at height n
+CaseOf(h, p, b, n) ==
+  [in |-> h.in, out |-> h.out, inExp |-> h.inExp, outExp |-> h.outExp, height |-> n,
    base |-> p.base, rate |-> p.rate, minH |-> p.minH, maxH |-> p.maxH, delta |-> p.delta,
    rdelta |-> RDelta, maxCltv |-> MaxCltv, ibase |-> h.ibase, irate |-> h.irate, bw |-> b]
 
@@ -136,7 +159,8 @@ NoOut == [t |-> "none", to |-> "-", v |-> "-"]
 FwdTo(c) == [t |-> "fwd", to |-> c, v |-> "ok"]
 FailWith(v) == [t |-> "fail", to |-> "-", v |-> v]
 Outcomes == {FwdTo(c) : c \in Chans} \cup {FailWith(v) : v \in Failures \cup {UNP}}
-NoLast == [h |-> Htlc(0, 0, 0, 0, 0, 0), req |-> [t |-> "node", x |-> "carol"], bw |-> [c \in Chans |-> 0]]
+NoLast == [h |-> Htlc(0, 0, 0, 0, 0, 0), req |-> [t |-> "node", x |-> "carol"], bw |-> [c \in Chans |-> 0],
+           height |-> Height0]
 
 (* ----- the switch's decision, for the policies pol the links go by -------- *)
 Live(c) == reg[c] = "live"
@@ -145,18 +169,18 @@ Known(r) == r.t = "node" \/ Live(r.x)
 \* getLinks(peer): interfaceIndex holds the live links
 Cands(r) == {c \in Chans : Live(c) /\ PeerOf(c) = ReqPeer(r)}
 \* one candidate's answer
-LinkAccepts(pol, c, h, b) == elig[c] /\ Accept(CaseOf(h, pol[c], b[c]))
-Dests(pol, r, h, b) == {c \in Cands(r) : LinkAccepts(pol, c, h, b)}
+LinkAccepts(pol, c, h, b, n) == elig[c] /\ Accept(CaseOf(h, pol[c], b[c], n))
+Dests(pol, r, h, b, n) == {c \in Cands(r) : LinkAccepts(pol, c, h, b, n)}
 
-\* the outcomes handlePacketAdd may produce
-AllowedSet(pol, r, h, b) ==
+\* the outcomes handlePacketAdd may produce at height n (atomic.LoadUint32(&s.bestHeight))
+AllowedSet(pol, r, h, b, n) ==
   IF ~Known(r) \/ Cands(r) = {} THEN {FailWith(UNP)}
-  ELSE LET D == Dests(pol, r, h, b) IN
+  ELSE LET D == Dests(pol, r, h, b, n) IN
        IF D # {} THEN {FwdTo(d) : d \in D}
        ELSE IF r.t = "node" \/ ~elig[r.x] THEN {FailWith(UNP)}
-       ELSE LET viol == Violated(CaseOf(h, pol[r.x], b[r.x])) IN
+       ELSE LET viol == Violated(CaseOf(h, pol[r.x], b[r.x], n)) IN
             {FailWith(v) : v \in {w \in Failures : AgreesWith(viol, w)}}
-Allowed(pol, r, h, b, o) == o \in AllowedSet(pol, r, h, b)
+Allowed(pol, r, h, b, n, o) == o \in AllowedSet(pol, r, h, b, n)
 
 (* ----- actions ------------------------------------------------------------ *)
 Init ==
@@ -166,6 +190,7 @@ Init ==
   /\ enf = adv
   /\ elig = [c \in Chans |-> reg[c] = "live"]
   /\ bw = [c \in Chans |-> Bw0(c)]
+  /\ height = Height0
   /\ last = NoLast /\ out = NoOut
 
 \* Switch.UpdateForwardingPolicies(map S -> q), after the graph has been updated
@@ -173,7 +198,7 @@ UpdatePolicies(S, q) ==
   /\ adv' = [c \in Chans |-> IF c \in S THEN q ELSE adv[c]]
   /\ enf' = [c \in Chans |-> IF c \in S /\ Live(c) THEN q ELSE enf[c]]
   /\ out' = NoOut
-  /\ UNCHANGED <<reg, elig, bw, last>>
+  /\ UNCHANGED <<reg, elig, bw, height, last>>
 
 \* the peer creates the link from the advertised policy; Switch.AddLink registers it
 Add(c) ==
@@ -182,7 +207,7 @@ Add(c) ==
   /\ enf' = [enf EXCEPT ![c] = adv[c]]
   /\ elig' = [elig EXCEPT ![c] = c \notin Pending]
   /\ out' = NoOut
-  /\ UNCHANGED <<adv, bw, last>>
+  /\ UNCHANGED <<adv, bw, height, last>>
 
 \* Switch.RemoveLink
 Remove(c) ==
@@ -190,24 +215,32 @@ Remove(c) ==
   /\ reg' = [reg EXCEPT ![c] = "gone"]
   /\ elig' = [elig EXCEPT ![c] = FALSE]
   /\ out' = NoOut
-  /\ UNCHANGED <<adv, enf, bw, last>>
+  /\ UNCHANGED <<adv, enf, bw, height, last>>
 
-Flush(c)   == Live(c) /\ elig[c]  /\ elig' = [elig EXCEPT ![c] = FALSE] /\ out' = NoOut /\ UNCHANGED <<adv, reg, enf, bw, last>>
-Unflush(c) == Live(c) /\ ~elig[c] /\ elig' = [elig EXCEPT ![c] = TRUE]  /\ out' = NoOut /\ UNCHANGED <<adv, reg, enf, bw, last>>
+Flush(c)   == Live(c) /\ elig[c]  /\ elig' = [elig EXCEPT ![c] = FALSE] /\ out' = NoOut /\ UNCHANGED <<adv, reg, enf, bw, height, last>>
+Unflush(c) == Live(c) /\ ~elig[c] /\ elig' = [elig EXCEPT ![c] = TRUE]  /\ out' = NoOut /\ UNCHANGED <<adv, reg, enf, bw, height, last>>
+
+\* Switch.htlcForwarder, case blockEpoch := <-s.blockEpochStream.Epochs: the height of the epoch IS the current
+\* height from now on, whatever was seen before
+Epoch(n) ==
+  /\ height' = n
+  /\ out' = NoOut
+  /\ UNCHANGED <<adv, reg, enf, elig, bw, last>>
 
 \* the bookkeeping of a forward with outcome o, bandwidths b seen before it: a handed-over HTLC
 \* takes its amount out of the channel's spendable bandwidth
 ForwardWith(h, r, b, o) ==
   /\ out' = o
-  /\ last' = [h |-> h, req |-> r, bw |-> b]
+  /\ last' = [h |-> h, req |-> r, bw |-> b, height |-> height]
   /\ bw' = IF o.t = "fwd" /\ o.to \in Chans THEN [b EXCEPT ![o.to] = @ - h.out] ELSE b
-  /\ UNCHANGED <<adv, reg, enf, elig>>
+  /\ UNCHANGED <<adv, reg, enf, elig, height>>
 
-\* Switch.handlePacketAdd: the links answer with the policies they ENFORCE
-Forward(h, r) == \E o \in AllowedSet(enf, r, h, bw) : ForwardWith(h, r, bw, o)
+\* Switch.handlePacketAdd: the links answer with the policies they ENFORCE, at the current height
+Forward(h, r) == \E o \in AllowedSet(enf, r, h, bw, height) : ForwardWith(h, r, bw, o)
 
 EnvNext == \/ \E S \in (SUBSET Chans) \ {{}}, q \in Policies : UpdatePolicies(S, q)
            \/ \E c \in Chans : Add(c) \/ Remove(c) \/ Flush(c) \/ Unflush(c)
+           \/ \E n \in Heights : Epoch(n)
 FwdNext == \E h \in Htlcs, r \in Reqs : Forward(h, r)
 Next == EnvNext \/ FwdNext
 Spec == Init /\ [][Next]_vars
@@ -218,6 +251,7 @@ TypeOK ==
   /\ adv \in [Chans -> PolicyRec] /\ enf \in [Chans -> PolicyRec]
   /\ reg \in [Chans -> {"none", "pending", "live", "gone"}]
   /\ elig \in [Chans -> BOOLEAN] /\ bw \in [Chans -> Int]
+  /\ height \in Heights \cup {Height0}
   /\ out = NoOut \/ out \in Outcomes
   /\ \A c \in Chans : elig[c] => Live(c)
 
@@ -232,23 +266,26 @@ PolicyPropagated == \A c \in Chans : Live(c) => enf[c] = adv[c]
 HandedOnlyIfAdvertisedAccepts ==
   Handed => /\ out.to \in Chans
             /\ Live(out.to) /\ elig[out.to] /\ PeerOf(out.to) = ReqPeer(last.req)
-            /\ Accept(CaseOf(last.h, adv[out.to], last.bw[out.to]))
+            /\ Accept(CaseOf(last.h, adv[out.to], last.bw[out.to], last.height))
 
 \* "... otherwise it is failed": only if no usable link to that peer accepts it (a requested channel
 \* without a live link does not tell the switch which peer is meant: unknown_next_peer)
-FailedOnlyIfNoLinkAccepts == (Failed /\ Known(last.req)) => Dests(adv, last.req, last.h, last.bw) = {}
+FailedOnlyIfNoLinkAccepts == (Failed /\ Known(last.req)) => Dests(adv, last.req, last.h, last.bw, last.height) = {}
 
 \* "... with a failure naming a violated rule": violated on the requested channel under its advertised policy
 FailureNamesViolatedRule ==
   (Failed /\ out.v # UNP) =>
      /\ last.req.t = "chan" /\ Live(last.req.x) /\ out.v \in Failures
-     /\ Agree(CaseOf(last.h, adv[last.req.x], last.bw[last.req.x]), out.v)
+     /\ Agree(CaseOf(last.h, adv[last.req.x], last.bw[last.req.x], last.height), out.v)
 
 \* unknown_next_peer names no rule: allowed only when no channel can be blamed
 UnknownNextPeerOnlyIf ==
   (Failed /\ out.v = UNP) => \/ ~Known(last.req) \/ Cands(last.req) = {}
                             \/ last.req.t = "node" \/ ~elig[last.req.x]
 
+\* a decision is taken at the height that is current when it is taken
+DecidedAtCurrentHeight == out # NoOut => last.height = height
+
 \* the whole decision once more, against the advertised policies
-DecisionAsAdvertised == out # NoOut => Allowed(adv, last.req, last.h, last.bw, out)
+DecisionAsAdvertised == out # NoOut => Allowed(adv, last.req, last.h, last.bw, last.height, out)
 =============================================================================
